@@ -229,6 +229,36 @@ def dtab_api(ctx, prog):
                              "token's observer id", fn=F, span=t.span)
 
 
+def pdom_mismatch(ctx, prog):
+    R = "C10.PDOM-mismatch"
+    ctx.rule(R, "Observer::unsubscribe(token) decides through its OWN internal observer on every path (that is where a "
+                "token of another observer is answered with Mismatch); it never routes by the token's owner")
+    F = ctx.need_fn(R, "incremental::public::Observer::<T>::unsubscribe")
+    if F is None:
+        return
+    c = F.cfg()
+    du = DefUse(F)
+    own = []
+    for t in F.calls():
+        if q.callee_is(t, "ErasedObserver::unsubscribe", "ErasedObserver>::unsubscribe", "InternalObserver::unsubscribe"):
+            recv = expr(F, t.args[0], du)
+            if mentions(recv, lambda x: x[0] == "field" and x[1] == ("arg", 1) and str(x[2][0]).endswith("internal")):
+                own.append(t)
+    others = [t for t in F.calls() if q.callee_is(t, "State::unsubscribe", "IncrState::unsubscribe", "WeakState::unsubscribe")]
+    ctx.site(R, F, "own-observer unsubscribe calls %s; by-owner routing calls %s" % ([t.bb for t in own], [t.bb for t in others]))
+    if not own:
+        ctx.fail(R, "own", "Observer::unsubscribe does not ask its own internal observer", fn=F)
+    elif c.path([0], c.exits, avoid={t.bb for t in own}) is not None or others:
+        ctx.fail(R, "own", "Observer::unsubscribe can answer without its own observer's check (e.g. by looking the "
+                 "token's owner up in the state): a token of another observer is accepted and that observer's "
+                 "subscription is removed instead of Err(Mismatch)", fn=F, span=(others or own)[0].span)
+    else:
+        ctx.ok(R, "own")
+
+
+pdom_mismatch.rule_id = "C10.PDOM-mismatch"
+
+
 def guard_sentinel(ctx, prog):
     R = "C10.GUARD-sentinel"
     ctx.rule(R, "Observer::drop disallows only when Rc::strong_count(&sentinel) <= 1; clone() clones the sentinel; "
@@ -342,4 +372,4 @@ for _f, _id in ((ts_transitions, "C10.TS-transitions"), (dtab_api, "C10.DTAB-api
                 (guard_sentinel, "C10.GUARD-sentinel"), (cfw_token, "C10.CFW-token")):
     _f.rule_id = _id
 
-RULES = [ts_transitions, dtab_api, guard_sentinel, cfw_token]
+RULES = [ts_transitions, dtab_api, guard_sentinel, cfw_token, pdom_mismatch]
